@@ -5,7 +5,7 @@ bool, std::string, classes with overloaded constructors / destructor / methods
 with arguments, overload sets distinguishable by (count, Lua type), default
 arguments) are wrapped; the binding is compiled against the reference Lua C-API
 emulator (vf/luaemu) and driven with matching stacks for every call vector and
-non-matching stacks (six numbers, one userdata) for every dispatching function.
+non-matching stacks (eight numbers, one userdata) for every dispatching function.
 The stream (library receive log, result count, pushed results) must equal the
 reference model; non-matching stacks must raise a Lua error without reaching the
 library.
@@ -85,7 +85,7 @@ def run(ctx):
     quick = ctx.tier == "quick"
     ctx.rule = ("Hypothesis library models restricted to the Lua subset (N1 scalars, bool, std::string arguments; void / "
                 "native / bool / std::string results; a class with overloaded constructors, destructor and methods with "
-                "arguments; an overload set distinguishable by (count, Lua type); a function with 1-2 default arguments) x "
+                "arguments; an overload set distinguishable by (count, Lua type); a function with 1-3 required and 1-3 default arguments) x "
                 "matching stacks for every call vector + non-matching stacks for every dispatching function; evaluations = "
                 "binding invocations; non-trivial = a call into an overload set / default-argument function / method, or a "
                 "non-matching stack; distinct by (function shape, stack)")
@@ -99,6 +99,11 @@ def run(ctx):
     nlib = 32 if quick else 500
     libs = smallgen.sample(xlib.library(lang="c++", for_fortran=True, rows=luafront.LUA_ROWS, results=luafront.LUA_RESULTS,
                                         types=luafront.LUA_TYPES, ovl_sigs=xlib.OVL_SIGS_LUA), ctx.seed, nlib)
+    # dispatch-focused family: small libraries that always carry an overload set (members with their own
+    # result types) and a default-argument function (1-3 required + 1-3 defaulted parameters)
+    libs += smallgen.sample(xlib.library(lang="c++", nfunc=(1, 2), for_fortran=True, rows=luafront.LUA_ROWS,
+                                         results=luafront.LUA_RESULTS, types=luafront.LUA_TYPES, ovl_sigs=xlib.OVL_SIGS_LUA,
+                                         with_overloads=True), ctx.seed + 1000, 32 if quick else 500)
     jobs = []
     for lib in libs:
         luafront.restrict(lib)
